@@ -54,6 +54,16 @@ def deliveries(rng, lines, quic, thorough):
             deco.append(l)          # duplicate line
     out.append(("decorated", text(deco), [], {}))
     out.append(("duplicated-log", text(L + L), [], {}))
+    # comment lines that look exactly like key lines of this very connection but carry other secrets (an older run's commented-out lines): a comment never
+    # supplies a secret, whether it stands before the real line (TLS <= 1.2 takes the first match) or after it (TLS 1.3 / QUIC take the last)
+    def stale(l):
+        a, b, c = l.split(" ")
+        return f"{a} {b} {rng.randbytes(len(c) // 2).hex()}"
+    cm = []
+    for l in L:
+        cm += [rng.choice(["#", "# ", "#\t", "## "]) + stale(l), l, rng.choice(["#", "# "]) + stale(l)]
+    out.append(("commented-out-stale-lines", text(cm), [], {}))
+    out.append(("commented-out-stale-lines-dsb", None, [("before", text(cm))], {}))
 
     def upcase(l, which):
         a, b, c = l.split(" ")
